@@ -342,7 +342,7 @@ func genCommitShape(t *rapid.T, vals *types.ValidatorSet, label string) ([]types
 	}
 	round := rapid.SampledFrom([]int32{0, 0, 0, 1, 2, 5}).Draw(t, label+".round")
 	// offsets: honest votes are later than the block; a minority may carry anything
-	tmode := rapid.SampledFrom([]string{"default", "spread", "ties", "byz"}).Draw(t, label+".tmode")
+	tmode := rapid.SampledFrom([]string{"default", "past-minority", "spread", "ties", "byz"}).Draw(t, label+".tmode")
 	for i := range offs {
 		switch tmode {
 		case "default":
@@ -351,6 +351,8 @@ func genCommitShape(t *rapid.T, vals *types.ValidatorSet, label string) ([]types
 			offs[i] = time.Duration(rapid.Int64Range(1, 12_000_000_000).Draw(t, label+".off"))
 		case "ties":
 			offs[i] = time.Duration(rapid.Int64Range(1, 3).Draw(t, label+".off")) * time.Second
+		case "past-minority":
+			offs[i] = time.Duration(rapid.Int64Range(1, 3_000_000_000).Draw(t, label+".off"))
 		case "byz":
 			offs[i] = time.Duration(rapid.Int64Range(1, 5_000_000_000).Draw(t, label+".off"))
 			if rapid.IntRange(0, 4).Draw(t, label+".isbyz") == 0 {
@@ -358,27 +360,74 @@ func genCommitShape(t *rapid.T, vals *types.ValidatorSet, label string) ([]types
 			}
 		}
 	}
+	if tmode == "past-minority" {
+		// the boundary of the BFT-time promise: a faulty minority as heavy as "less than one third" allows stamps
+		// before / at the block time, and as few honest precommits as the +2/3 quorum allows are in the commit
+		order := rapid.Permutation(seq(n)).Draw(t, label+".pastorder")
+		isFaulty := make([]bool, n)
+		fp := new(big.Int)
+		for _, i := range order {
+			np := new(big.Int).Add(fp, big.NewInt(vals.Validators[i].VotingPower))
+			if new(big.Int).Mul(np, big.NewInt(3)).Cmp(total) < 0 {
+				fp, isFaulty[i] = np, true
+				flags[i] = types.BlockIDFlagCommit
+				offs[i] = -time.Duration(rapid.SampledFrom([]int64{0, 1, 1_000_000_000, 3_600_000_000_000}).Draw(t, label+".pastoff"))
+			}
+		}
+		if rapid.Bool().Draw(t, label+".fewhonest") {
+			for _, i := range order {
+				if !isFaulty[i] {
+					save := flags[i]
+					flags[i] = types.BlockIDFlagAbsent
+					if !enough() {
+						flags[i] = save
+						if save == types.BlockIDFlagAbsent || save == types.BlockIDFlagNil {
+							flags[i] = types.BlockIDFlagCommit
+						}
+					}
+				}
+			}
+		}
+		for i := 0; !enough() && i < n; i++ {
+			flags[i] = types.BlockIDFlagCommit
+		}
+	}
 	fixOffsets(vals, flags, offs)
 	return flags, round, offs
 }
 
-// fixOffsets: the weighted median of the present votes must lie after the block time, otherwise no valid successor
-// block exists (BFT time is only promised for a Byzantine minority): if it does not, the non-positive offsets are
-// made positive.
+// fixOffsets: honest precommits are stamped after the block they vote for; faulty ones (offset <= 0 here) are
+// unconstrained. bft-time.md promises a block time between honest timestamps - hence after the previous block - as
+// long as the faulty validators hold less than one third of the power, so such a commit is part of the domain and is
+// left alone: the next correct proposer must be able to build a valid block from it. Only when the past-stamped
+// power reaches one third (nothing is promised then and no valid successor need exist) the non-positive offsets are
+// made positive. The faulty-minority class is excluded by construction while finding findingFloor is listed as known.
 func fixOffsets(vals *types.ValidatorSet, flags []types.BlockIDFlag, offs []time.Duration) {
 	var es []wt
 	base := time.Unix(1000, 0)
-	for i := range vals.Validators {
+	faulty, total := new(big.Int), powerOf(vals)
+	for i, v := range vals.Validators {
 		if i < len(flags) && flags[i] == types.BlockIDFlagAbsent {
 			continue
 		}
-		es = append(es, wt{base.Add(offs[i]), vals.Validators[i].VotingPower})
+		es = append(es, wt{base.Add(offs[i]), v.VotingPower})
+		if offs[i] <= 0 {
+			faulty.Add(faulty, big.NewInt(v.VotingPower))
+		}
 	}
-	if m, ok := refMedian(es); !ok || !m.After(base) {
-		for i := range offs {
-			if offs[i] <= 0 {
-				offs[i] = time.Duration(i+1) * time.Millisecond
-			}
+	if m, ok := refMedian(es); ok && m.After(base) {
+		return
+	}
+	if new(big.Int).Mul(faulty, big.NewInt(3)).Cmp(total) < 0 {
+		if !lib.IsKnown(findingFloor) {
+			lib.Class("generator", "past-stamped-minority-is-median")
+			return
+		}
+		lib.ExcludedByKnown(findingFloor)
+	}
+	for i := range offs {
+		if offs[i] <= 0 {
+			offs[i] = time.Duration(i+1) * time.Millisecond
 		}
 	}
 }
